@@ -145,7 +145,8 @@ def gen_scn(r, k, forced=None):
             elif m < 0.25 and not rebin_on:
                 # (an instance configured with rebinGrids rebins again, onto its configured boundaries, at every state it
                 # reads: a reload there is a second rebinning, not modelled)
-                events.append(("reload",))
+                # through the module (`load`) or through the bias alone (`cv bias m save` / `cv bias m load`)
+                events.append(("reload",) if r.random() < 0.6 else ("breload",))
             elif can_rebin_grids and m < 0.6:
                 # rebinning from the grids of the state (no keepHills): the current grids extended by whole bins where
                 # expandBoundaries allows (40 bins: beyond any expansion these histories can reach)
@@ -243,6 +244,13 @@ def gen_scn(r, k, forced=None):
             boundary = True          # the step at which the state was written is computed again
         events.append(("step", boundary, zs))
     c["events"] = events
+    # things that must not matter to the bias m: a configuration rejected in the middle of the session (a second
+    # metadynamics bias with a negative width, a variable with an unknown component), and a second metadynamics bias on the
+    # same variables, alive for a few steps and then deleted
+    c["noise"] = []
+    if r.random() < f.get("p_noise", 0.3):
+        for _ in range(r.randint(1, 3)):
+            c["noise"].append((r.randint(1, nsteps - 1), r.choice(["badbias", "badcolvar", "second"]), r.randint(1, 4)))
     if r.random() < f.get("p_scale", 0.15) and all(v["kind"] == 0 for v in vars_) and not c["eb"] and not has_restart(c):
         rescale(c, r.choice([-27, -13, 20, 27]))
     return c
@@ -307,6 +315,8 @@ def steps_of(c):
             continue
         if e[0] == "reload":
             run_start = it          # the same instance: relative steps restart, the next step is not a first step
+            continue
+        if e[0] == "breload":       # the bias alone reads its state: the module's step counters are untouched
             continue
         if e[0] != "step":
             continue
@@ -448,6 +458,7 @@ def scenario_text(c, dump=True):
         if v["kind"] in (1, 2):
             L.append("pos %d 0 0 0" % first[d])
     nstate = 0
+    nstep = 0
     par = None
     fmt = "binary" if c.get("binary") else "text"
     load = "load" if c.get("medium", "file") == "file" else ("loadbuf" if c.get("binary") else "loadstr")
@@ -462,6 +473,10 @@ def scenario_text(c, dump=True):
             nstate += 1
             L += ["save %s c05l%d.state" % (fmt, nstate), "%s c05l%d.state" % (load, nstate)]
             continue
+        if e[0] == "breload":
+            nstate += 1
+            L += ["script cv bias m save c05b%d" % nstate, "script cv bias m load c05b%d" % nstate]
+            continue
         if e[0] in ("restart", "rebin", "reconf"):
             # the state is written, a fresh instance reads it (for "rebin": with new boundaries and rebinGrids on; for
             # "reconf": with other hill parameters, which stay for the later runs)
@@ -473,6 +488,8 @@ def scenario_text(c, dump=True):
             L.append("%s c05r%d.state" % (load, nstate))
             continue
         boundary, zs = e[1], e[2]
+        L += noise_text(c, nstep)
+        nstep += 1
         for d, z in enumerate(zs):
             if c["vars"][d]["kind"] == 0:
                 L.append("pos %d 0 0 %s" % (first[d], V.hexf(z)))
@@ -487,6 +504,36 @@ def scenario_text(c, dump=True):
         L.append("metadump m %d" % (1 if dump else 0))
     L.append("metatraj m")
     return "\n".join(L) + "\n"
+
+
+def second_alive(c):
+    """indices of the step events during which the second bias m2 exists"""
+    out = set()
+    nst = len(step_events(c))
+    for (k, kind, dur) in c.get("noise", []):
+        if kind == "second":
+            out |= set(range(k, min(nst, k + dur)))
+    return out
+
+
+def noise_text(c, n):
+    """commands issued before step event n that must leave the bias m as it is"""
+    L = []
+    names = " ".join("v%d" % d for d in range(len(c["vars"])))
+    alive = second_alive(c)
+    if n > 0 and n in alive and (n - 1) not in alive or (n == 0 and 0 in alive):
+        L += ["config EOF", "metadynamics {", "  name m2", "  colvars " + names, "  hillWeight 0.25", "  newHillFrequency 1",
+              "  hillWidth 1.5"] + ([] if c["use_grids"] else ["  useGrids off"]) + ["}", "EOF"]
+    if n > 0 and (n - 1) in alive and n not in alive:
+        L.append("script cv bias m2 delete")
+    for (k, kind, dur) in c.get("noise", []):
+        if k != n:
+            continue
+        if kind == "badbias":
+            L += ["config EOF", "metadynamics {", "  name mbad", "  colvars " + names, "  hillWeight 1.0", "  hillWidth -1.0", "}", "EOF"]
+        elif kind == "badcolvar":
+            L += ["config EOF", "colvar {", "  name vbad", "  nosuchcomponent {", "    group1 { atomNumbers 1 }", "  }", "}", "EOF"]
+    return L
 
 
 def model_case(c, xs, dump=True):
@@ -514,7 +561,7 @@ def model_case(c, xs, dump=True):
         if e[0] == "restart":
             p.append("R")
             continue
-        if e[0] == "reload":
+        if e[0] in ("reload", "breload"):
             p.append("L")
             continue
         if e[0] == "reconf":
@@ -626,7 +673,8 @@ def parse_impl(c, text):
         elif w[0] == "AF":
             cur["af"].append([fh(t) for t in w[2:]])
         elif w[0] == "BIAS":
-            cur["bias"] = fh(w[2])
+            if w[1] == "m":
+                cur["bias"] = fh(w[2])
         elif w[0] == "META":
             if w[1] == "none":
                 cur["nometa"] = True
@@ -708,7 +756,7 @@ def hills_close(a, b, exact=True):
 
 
 def has_restart(c):
-    return any(e[0] in ("restart", "rebin", "reload", "reconf") for e in c["events"])
+    return any(e[0] in ("restart", "rebin", "reload", "reconf", "breload") for e in c["events"])
 
 
 def vec_close(a, b):
@@ -870,6 +918,7 @@ def oracle(c, impl, traj):
     facts = {"deposits": 0, "projections": 0, "outside_steps": 0, "expansions": 0, "saves": 0, "wt_outside": 0,
              "wrapped_steps": 0, "restarts": 0, "rebins": 0, "antipodal_steps": 0, "ebmeta_deposits": 0, "reloads": 0, "rebins_from_grids": 0, "bound_checks": 0, "bound_max_ratio": 0.0, "pmf_files": 0, "reconfs": 0, "hetero_steps": 0}
     cur = par0(c)          # the hill parameters of the current run
+    alive2 = second_alive(c)     # while a second bias acts on the same variables the applied force is the sum of both
     restarted = False
     off_at_restart = []
     lingering = False      # after a restart without keepHills the hills near the edges stay listed until the next projection
@@ -907,9 +956,9 @@ def oracle(c, impl, traj):
             if dumps[k][0] != name:
                 return ("pmf:file-name", "free-energy file %d is named %r, expected %r" % (k, dumps[k][0], name), max(n, 0)), facts
             continue
-        if e[0] in ("restart", "rebin", "reload", "reconf"):
+        if e[0] in ("restart", "rebin", "reload", "reconf", "breload"):
             facts["restarts"] += 1
-            if e[0] == "reload":
+            if e[0] in ("reload", "breload"):
                 facts["reloads"] += 1
             if e[0] == "reconf":
                 facts["reconfs"] += 1
@@ -1106,7 +1155,7 @@ def oracle(c, impl, traj):
             if dev > bound * (1 + 1e-9) + 1e-12:
                 return ("discretisation:bound-exceeded", "step %d (it=%d, x=%s): energy %r differs from the analytic sum of all hills %r by "
                         "more than sum|W| * (exp(-1/2) sum w/(2 sigma) + exp(-23/2)) = %r" % (n, it, x, im["E"], esum(c, x, tab + pend), bound), n), facts
-        if im.get("bias") != im["E"] or im["af"] != im["F"]:
+        if im.get("bias") != im["E"] or (im["af"] != im["F"] and n not in alive2):
             return ("applied:bias-output", "step %d: bias energy/applied force reported by the module (%r, %s) differ from "
                     "the bias's own (%r, %s)" % (n, im.get("bias"), im["af"], im["E"], im["F"]), n), facts
     return None, facts
@@ -1278,6 +1327,16 @@ def check_one(run, c, impl, mo, txt, rcv, o, traj, mline):
     run.dist("unit_vector_vars", sum(1 for v in c["vars"] if v["kind"] == 2))
     run.dist("quaternion_vars", sum(1 for v in c["vars"] if v["kind"] == 3))
     run.dist("steps", len(impl))
+    run.dist("second_bias_steps", o.count("BIAS m2 "))
+    run.dist("rejected_configs", o.count("CONFIG err=") - o.count("CONFIG err=ok"))
+    if c["it0"] >= 2 ** 31 - 3:
+        run.dist("start_step_beyond_2^31")
+    if c.get("scale"):
+        run.dist("rescaled_2^%d" % c["scale"])
+    if c.get("medium") == "mem" and has_restart(c):
+        run.dist("state_from_buffer_or_string")
+    if any(e[0] == "breload" for e in c["events"]):
+        run.dist("bias_level_reload")
     for kk in ("deposits", "projections", "outside_steps", "expansions", "saves", "wt_outside", "wrapped_steps", "restarts", "rebins", "antipodal_steps", "ebmeta_deposits", "reloads", "rebins_from_grids", "bound_checks", "pmf_files", "reconfs", "hetero_steps"):
         run.dist(kk, facts[kk])
     d_ = run.cov["distribution"]
